@@ -78,7 +78,7 @@ def make_code(rng, c):
         return b'x=1\n' * rng.randint(50, 1200)
     if cls == 'repetitive_big':
         unit = rng.choice((b'x=1\n', b'print("abc")\n'))
-        return (unit * (c['n'] // len(unit) + 1))[:c['n'] - 1] + b'\n'
+        return unit * (c['n'] // len(unit))
     if cls.startswith('update60_'):
         return carts.simple_lua(rng, rng.choice((60, 800)), update60=cls.split('_')[1])
     if cls == 'incompressible':
